@@ -859,10 +859,10 @@ class ConcreteCtx(_Base):
         pass
 
 
-def run_concrete(body, cfg, model, target_claim=None):
+def run_concrete(body, cfg, model, target_claim=None, stop_on_fail=True):
     """Replay a model against the real code with plain values.
     Returns (ConcreteCtx, outcome)."""
-    ctx = ConcreteCtx(model, target_claim)
+    ctx = ConcreteCtx(model, target_claim, stop_on_fail)
     try:
         body(ctx, cfg)
         outcome = 'completed'
@@ -871,3 +871,67 @@ def run_concrete(body, cfg, model, target_claim=None):
     except PathControl as e:
         outcome = type(e).__name__
     return ctx, outcome
+
+
+# --------------------------------------------------------------------------
+# evaluating a term under a model (for signatures and descriptions)
+
+def _ev(e, m):
+    if isinstance(e, str):
+        if e == 'true':
+            return True
+        if e == 'false':
+            return False
+        if e.lstrip('-').isdigit():
+            return int(e)
+        if e not in m:
+            raise KeyError(e)
+        return m[e]
+    op = e[0]
+    if op == 'ite':
+        return _ev(e[2], m) if _ev(e[1], m) else _ev(e[3], m)
+    if op == 'and':
+        return all(_ev(x, m) for x in e[1:])
+    if op == 'or':
+        return any(_ev(x, m) for x in e[1:])
+    if op == 'not':
+        return not _ev(e[1], m)
+    if op == '=>':
+        return (not _ev(e[1], m)) or _ev(e[2], m)
+    a = [_ev(x, m) for x in e[1:]]
+    if op == '+':
+        return sum(a)
+    if op == '-':
+        return -a[0] if len(a) == 1 else a[0] - sum(a[1:])
+    if op == '*':
+        r = 1
+        for x in a:
+            r *= x
+        return r
+    if op == 'div':
+        return a[0] // a[1]     # positive constant divisors only
+    if op == 'mod':
+        return a[0] % a[1]
+    if op == '=':
+        return all(x == a[0] for x in a[1:])
+    if op == '<':
+        return a[0] < a[1]
+    if op == '<=':
+        return a[0] <= a[1]
+    if op == '>':
+        return a[0] > a[1]
+    if op == '>=':
+        return a[0] >= a[1]
+    raise HarnessError('evaluate: unknown operator %r' % op)
+
+
+def evaluate(v, m):
+    """Value of a (possibly symbolic) value under model m; variables missing
+    from the model (created after the claim point) evaluate to None."""
+    if not is_sym(v):
+        return v
+    from .solver import parse_sexpr
+    try:
+        return _ev(parse_sexpr(v.s), m)
+    except KeyError:
+        return None
